@@ -212,6 +212,17 @@ class CallGraph:
 
 # ---------------------------------------------------------------- roles
 
+def is_transport_io(t, what):
+    """a call of the trait method `what` (std::io::Read::read.. / std::io::Write::write..) on the generic transport: unresolved
+    (the receiver is `impl Read + Write` itself) or resolved into a std wrapper around it (`BufWriter<&mut impl Write>`, `&mut W`)"""
+    if not (t.get("callee") or "").startswith(what):
+        return False
+    if not t.get("is_resolved"):
+        return True
+    recv = (t.get("arg_tys") or [""])[0]
+    return "impl " in recv
+
+
 class Roles:
     """Role-based anchors discovered from resolved program facts (never from positions)."""
 
@@ -259,7 +270,7 @@ class Roles:
         self.connection_fns = []
         self.transport_helpers = set()
         def touches(fn, what):
-            return any((t.get("callee") or "").startswith(what) and not t.get("is_resolved") for _, t in fn.calls())
+            return any(is_transport_io(t, what) for _, t in fn.calls())
         for fn in F.rws_fns():
             if fn.kind == "Promoted":
                 continue
